@@ -93,6 +93,7 @@ def check(res):
     keys, lens = shared["keys"], shared["lens"]
     ws = streams[0]
     huge_words(res, exe, keys, "oracle:")
+    zero_hash_first(res, exe, keys, "oracle:")
     seen_k, kept = {}, []
     for v in res.violations:                      # the same key from several streams counts once (at most 3 for model differences)
         seen_k[v["key"]] = seen_k.get(v["key"], 0) + 1
@@ -126,15 +127,27 @@ def check(res):
 HUGE = ["H 6162", "G 2147483656 77", "G 2147483656 77", "H 6162"]
 
 
+def gen_prefix(seed, n):
+    return bytes(((seed * 31 + i * 131 + (i >> 8) * 7 + (i >> 16)) & 0xff) for i in range(n))
+
+
 def huge_words(res, exe, keys, prefix):
+    _huge(res, exe, keys, prefix, HUGE, 14, [0, 1, 1, 0], "2147483656")
+    if res.tier != "quick":
+        # thorough tier: a word of 2^32 + 5 bytes, after its own first five bytes were interned as a word (about 18 GB resident)
+        stream = ["H " + gen_prefix(79, 5).hex(), "G 4294967301 79", "G 4294967301 79", "H " + gen_prefix(79, 5).hex()]
+        _huge(res, exe, keys, prefix, stream, 26, [0, 1, 1, 0], "4294967301")
+
+
+def _huge(res, exe, keys, prefix, HUGE, need_gb, want_ids, size_txt):
     """a word of 2^31 + 8 bytes (lengths that do not fit an int), interned twice, between two requests of a short word; implementation only
     (about 9 GB resident under ASan, half a minute)"""
     try:
         free_kb = int(re.search(r"MemAvailable:\s+(\d+)", open("/proc/meminfo").read()).group(1))
     except Exception:
         free_kb = 0
-    if free_kb < 14 * 1024 * 1024:
-        res.notes.append("huge-word run skipped: less than 14 GB of memory available")
+    if free_kb < need_gb * 1024 * 1024:
+        res.notes.append("huge-word run (%s bytes) skipped: less than %d GB of memory available" % (size_txt, need_gb))
         return
     p = run([exe], input="\n".join(HUGE) + "\n", timeout=1800, env=SAN_ENV)
     il = p.stdout.splitlines()
@@ -142,17 +155,45 @@ def huge_words(res, exe, keys, prefix):
         k = "crash:huge-word"
         if k not in keys:
             keys.add(k)
-            res.violation(k, "interning a word of 2147483656 bytes aborted (sanitizer report or crash) at request %d" % min(len(il), len(HUGE) - 1),
+            res.violation(k, "interning a word of %s bytes aborted (sanitizer report or crash) at request %d" % (size_txt, min(len(il), len(HUGE) - 1)),
                           {"stream": HUGE, "stderr": p.stderr[-3000:], "rerun": "printf '%s\\n' | build/<hash>/asan/c03_driver" % "\\n".join(HUGE)})
         return
     ids = [int(dict(x.split("=") for x in l.split())["id"]) for l in il[:-1]]
     rb = il[-1].split("=", 1)[1]
-    if ids != [0, 1, 1, 0] or "0" in rb:
+    if ids != want_ids or "0" in rb:
         k = prefix + "huge-word"
         if k not in keys:
             keys.add(k)
-            res.violation(k, "a word of 2147483656 bytes interned twice between two requests of `ab`: node classes %s (expected [0, 1, 1, 0]), characters preserved: %s" % (ids, rb),
+            res.violation(k, "a word of %s bytes interned twice between two requests of a short word: node classes %s (expected %s), characters preserved: %s" % (size_txt, ids, want_ids, rb),
                           {"stream": HUGE, "observed": il, "rerun": "printf '%s\\n' | build/<hash>/asan/c03_driver" % "\\n".join(HUGE)})
+
+
+def zero_hash_first(res, exe, keys, prefix):
+    """the very first word a fresh pool interns has std::hash code 0 (built by inverting the hash), then ordinary words, then other
+    zero-hash words: implementation only"""
+    import hashcollide
+    ws = [hashcollide.extend_to(b"", 0), b"ab", hashcollide.extend_to(b"zerohash", 0), hashcollide.extend_to(b"", 0), b"ab"]
+    fams, note = hashcollide.confirmed_families(1, 1)
+    if not fams:
+        return                                   # the standard library's hash is not the one inverted here
+    stream = ["H " + w.hex() for w in ws]
+    p = run([exe], input="\n".join(stream) + "\n", timeout=600, env=SAN_ENV)
+    il = p.stdout.splitlines()
+    if p.returncode != 0 or len(il) != len(ws) + 1:
+        k = "crash:zero-hash-first"
+        if k not in keys:
+            keys.add(k)
+            res.violation(k, "a fresh pool whose first word has std::hash code 0: interning aborted (sanitizer report or crash) at request %d" % min(len(il), len(ws) - 1),
+                          {"stream": stream, "stderr": p.stderr[-3000:], "rerun": "printf '%s\\n' | build/<hash>/asan/c03_driver" % "\\n".join(stream)})
+        return
+    ids = [int(dict(x.split("=") for x in l.split())["id"]) for l in il[:-1]]
+    rb = il[-1].split("=", 1)[1]
+    if ids != [0, 1, 2, 0, 1] or "0" in rb:
+        k = prefix + "zero-hash-first"
+        if k not in keys:
+            keys.add(k)
+            res.violation(k, "a fresh pool whose first word has std::hash code 0: node classes %s (expected [0, 1, 2, 0, 1]), characters preserved: %s" % (ids, rb),
+                          {"stream": stream, "observed": il})
 
 
 def one_stream(res, ws, known, exe, gen, coq_failed, shared):
